@@ -198,3 +198,67 @@ Theorem C12_deadline_refuted_if_client_timeout_replaces_request_timeout :
     effective_deadline_client_instead parent now timeout client = Some d' /\ (d < d')%Z.
 Proof. exact client_instead_refuted. Qed.
 Print Assumptions C12_deadline_refuted_if_client_timeout_replaces_request_timeout.
+
+(* ---- the error value an upload source fails with ---- *)
+(* srcfile: per Read of a (sticky) source what it reports: nil, io.EOF, io.ErrUnexpectedEOF, any other error value;
+   src_fails: the first Read that does not return nil reports something else than io.EOF. Whatever the value, at the
+   sniffing ReadFull or at any Read of the copy, with or without bytes next to the error: not a success once the body
+   is consumed to its end. src_fails_visibly leaves out the one case of the next theorem but one. *)
+Theorem C12_upload_failure_any_error_value : forall fx nv files sc,
+  existsb src_fails_visibly files = true -> sc_param_err sc = false ->
+  (match sc_auth sc with
+   | AOk true | AFail true => True
+   | _ => sc_debug sc = true \/ exists r, sc_transport sc = TRespond None r
+   end) ->
+  c_result (call fx (compile fx nv (map lower files)) sc) = RFail.
+Proof. exact upload_failure_any_error_value. Qed.
+Print Assumptions C12_upload_failure_any_error_value.
+
+(* io.EOF, early or not, is the end of a file and no failure *)
+Theorem C12_early_end_is_no_failure : forall f, src_fails f = false -> fp_fails (lower f) = false.
+Proof. exact early_end_is_no_failure. Qed.
+Print Assumptions C12_early_end_is_no_failure.
+
+(* the test that suits the sniffing io.ReadFull (io.EOF and io.ErrUnexpectedEOF both mean a short file there) must not
+   be applied to the copy: a source truncated in the middle of the copy would be answered as a success *)
+Theorem C12_upload_failure_refuted_if_truncation_is_benign : exists files sc,
+  existsb src_fails_visibly files = true /\ sc_param_err sc = false /\
+  (exists r, sc_transport sc = TRespond None r) /\
+  c_result (call all_fixed (compile all_fixed 0 (map lower_trunc_benign files)) sc) = ROk /\
+  c_result (call all_fixed (compile all_fixed 0 (map lower files)) sc) = RFail.
+Proof. exact upload_failure_refuted_if_truncation_is_benign. Qed.
+Print Assumptions C12_upload_failure_refuted_if_truncation_is_benign.
+
+(* F-C12-6 (open): a source that is not sticky and reports io.ErrUnexpectedEOF once inside the sniffing window, io.EOF
+   afterwards, is taken for a short file: a failing source, the body consumed to its end, and the call succeeds *)
+Theorem C12_upload_failure_refuted_for_truncation_once_inside_sniff_window : exists f sc,
+  src_fails f = true /\ sniff_swallowed f = true /\ sc_param_err sc = false /\
+  (exists r, sc_transport sc = TRespond None r) /\
+  c_result (call all_fixed (compile all_fixed 0 (map lower [f])) sc) = ROk.
+Proof. exact upload_failure_refuted_for_truncation_once_inside_sniff_window. Qed.
+Print Assumptions C12_upload_failure_refuted_for_truncation_once_inside_sniff_window.
+
+(* ---- what Submit leaves behind for the next call on the same Runtime ---- *)
+(* the response body is closed exactly once; with connection reuse its end has been seen when it is closed (the
+   deferred Close runs before the deferred cancel), without it only if the reader saw it *)
+Theorem C12_epilogue_drains_before_cancel : forall keepalive saw,
+  x_closes (after_exchange keepalive saw) = 1 /\
+  (keepalive = true -> x_ended (after_exchange keepalive saw) = true) /\
+  (keepalive = false -> x_ended (after_exchange keepalive saw) = saw).
+Proof. exact epilogue_drains. Qed.
+Print Assumptions C12_epilogue_drains_before_cancel.
+
+(* so any number of sequential calls with connection reuse dial one connection, whatever their readers left unread *)
+Theorem C12_reuse_one_connection : forall readers, readers <> [] ->
+  conns_of_history submit_epilogue true readers = 1.
+Proof. exact reuse_one_connection. Qed.
+Print Assumptions C12_reuse_one_connection.
+
+(* ... and the order is needed: with cancel running first the drain meets a cancelled exchange, the body is closed
+   (once) with its remainder unread and every call dials anew *)
+Theorem C12_reuse_refuted_if_cancel_runs_first :
+  conns_of_history wrong_epilogue true [false; false; false] = 3 /\
+  x_closes (run_epilogue true wrong_epilogue false) = 1 /\
+  x_ended (run_epilogue true wrong_epilogue false) = false.
+Proof. exact reuse_refuted_if_cancel_runs_first. Qed.
+Print Assumptions C12_reuse_refuted_if_cancel_runs_first.
